@@ -150,7 +150,17 @@ def check(repo, rep):
         'max_continuous_silence>=max_length': lambda g, l: g and ((g[0] == '>=' and is_count(cx, g[1], 'max_silence') and is_count(cx, g[2], 'max_dur')) or (g[0] == '<=' and is_count(cx, g[1], 'max_dur') and is_count(cx, g[2], 'max_silence'))),
     }
     found = {k: [] for k in spec_guards}
+    opaque_raise = False
     for l in raising:
+        depth_ = 0
+        for e in l.effects:
+            depth_ += 1 if e[0] == 'loop-enter' else (-1 if e[0] == 'loop-exit' else 0)
+        if depth_ > 0 or any(e[0] == 'loop-exit' and e[1] == 'raise' for e in l.effects):
+            # raised from inside a loop (a table of checks walked by a for statement, a generator of failed checks): which
+            # parameter values lead there is not a condition of the path
+            opaque_raise = True
+            rep.unknown('split(): a raise inside a loop at %s -- the parameter check it implements was not recognised' % cx.where('core', l.node))
+            continue
         g = norm_cmp(l.conds[-1][0], l.conds[-1][1]) if l.conds else None
         hit = [k for k, f in spec_guards.items() if f(g, l)]
         en = exc_name(l)
@@ -165,6 +175,8 @@ def check(repo, rep):
             found[k].append(l)
             rep.ob('split() raises ValueError for %s' % k, en == 'ValueError', where, 'split:guard-type[%s]' % k, 'raises %s for %s' % (en, k), sample=dict(guard=k, raises=en))
     for k, ls in found.items():
+        if not ls and opaque_raise:
+            continue                    # may be one of the checks done in the loop (already INCONCLUSIVE)
         rep.ob('split() rejects %s' % k, bool(ls), cx.where('core', fn), 'split:missing-guard[%s]' % k, 'no raising path of split() has the guard %s' % k)
     # order: the parameter checks precede the construction of the reader/tokenizer (they must not be skipped on some path)
     rets = [l for l in sw.leaves if l.outcome == 'return']
@@ -173,6 +185,8 @@ def check(repo, rep):
         need = [('>', ('p', 'min_dur')), ('>', ('p', 'max_dur')), ('>=', ('p', 'max_silence'))]
         for op, v in need:
             ok = any(g and g[0] == op and g[1] == v and g[2] == ('c', 0) for g in gs)
+            if not ok and opaque_raise:
+                continue
             rep.ob('every successful path of split() has passed the %s %s 0 check' % (v[1], op), ok, cx.where('core', l.node), 'split:unchecked-path[%s]' % v[1])
     # too-small window in the framing reader (shared with C10)
     fl = cx.leaves('util', '_FixedSizeAudioReader.__init__')
